@@ -140,6 +140,15 @@ func runConv(sc M) {
 			if err := es.Unmarshal(bytes.NewBuffer(append([]byte{}, want...))); err != nil || string(es) != s {
 				fail("Efistring.Unmarshal(encoding of %q) = %q, %v", trunc(s), trunc(string(es)), err)
 			}
+			// every decoder spelling refuses input without the terminator
+			var es2 efivar.Efistring
+			if err := es2.Unmarshal(bytes.NewBuffer(append([]byte{}, want[:len(want)-2]...))); err == nil && len(want) > 2 {
+				fail("Efistring.Unmarshal accepts unterminated input for %q (gives %q)", trunc(s), trunc(string(es2)))
+			}
+			// the raw string reader stops after the terminator and hands back the units with it
+			if rb := util.ReadNullString(bytes.NewReader(append(append([]byte{}, want...), 0x41, 0x00))); !bytes.Equal(rb, want) {
+				fail("ReadNullString(encoding of %q followed by more data) = %x", trunc(s), truncb(rb))
+			}
 		}
 		return nil
 	})
